@@ -103,6 +103,9 @@ def ev(e, env):
         raise Unknown("binary %s" % op)
     if k == "cond":
         return ev(e["t"], env) if ev(e["c"], env) else ev(e["f"], env)
+    if k == "call" and e.get("callee") and (e["callee"] + "()") in env:
+        # the caller of ev() supplies the result of a named callee as an input of the finite domain
+        return _wrap(env[e["callee"] + "()"], e.get("ty"))
     raise Unknown("node %s" % k)
 
 
